@@ -34,7 +34,12 @@ Progs == {p \in [carrier : Carriers, wrapper : Wrappers, renamed : BOOLEAN, bkin
 \* coincide (Option<Vec<B>> next to Option<Vec<C>>) - every reference is a dependency of its own, whatever else the item mentions
 Wrappers2 == {"direct", "vec", "option_vec", "vec_option", "option_mapv", "option_garg", "mapk"}
 Progs2 == [carrier : {"field", "vfield"}, w1 : Wrappers2, w2 : Wrappers2, same_target : BOOLEAN]
-Init == \/ /\ mode = "prog2" /\ G = [x \in Nodes |-> {}] /\ perm = <<>>
+\* long chains: a path of ChainLen definitions, each referring to the next (a depth-first ordering walks as deep as the chain is long):
+\* the head sorts first (the walk starts at the head) or last
+ChainLens == {12, 70, 130}
+Init == \/ /\ mode = "chain" /\ G = [x \in Nodes |-> {}] /\ perm = <<>>
+           /\ \E n \in ChainLens, d \in {"head_first", "leaf_first"} : prog = [NoProg EXCEPT !.wrapper = d, !.carrier = ToString(n)]
+        \/ /\ mode = "prog2" /\ G = [x \in Nodes |-> {}] /\ perm = <<>>
            /\ \E q \in Progs2 : prog = [NoProg EXCEPT !.carrier = q.carrier, !.wrapper = q.w1, !.bname = q.w2, !.twin = q.same_target]
         \/ /\ mode = "graph" /\ G \in [Nodes -> SUBSET Nodes] /\ perm = <<>> /\ prog = NoProg
         \/ /\ mode = "perm" /\ G = [x \in Nodes |-> {}] /\ prog = NoProg
@@ -48,6 +53,8 @@ AdjDesc == [x \in Nodes |-> Desc(G[x])]
 Emit == IF mode = "graph"
         THEN PrintT(<<"REPLAY", ToJson([mode |-> mode, asc |-> AdjAsc, desc |-> AdjDesc,
                                         predict_asc |-> M!ToposortImpl(AdjAsc), predict_desc |-> M!ToposortImpl(AdjDesc)])>>)
+        ELSE IF mode = "chain"
+        THEN PrintT(<<"REPLAY", ToJson([mode |-> mode, len |-> prog.carrier, dir |-> prog.wrapper])>>)
         ELSE IF mode = "prog2"
         THEN PrintT(<<"REPLAY", ToJson([mode |-> mode, carrier |-> prog.carrier, w1 |-> prog.wrapper, w2 |-> prog.bname, same_target |-> prog.twin,
                                         edges |-> IF prog.twin THEN << <<1, 2>>, <<1, 2>> >> ELSE << <<1, 2>>, <<1, 3>> >>])>>)
@@ -60,6 +67,6 @@ Emit == IF mode = "graph"
 \* M => P in the model (toposort_impl on the graph it is given; the permutation realised by sort_by_indices)
 ModelOk == IF mode = "graph"
            THEN OrderOk(M!ToposortImpl(AdjAsc), G) /\ OrderOk(M!ToposortImpl(AdjDesc), G)
-           ELSE IF mode \in {"prog", "prog2"} THEN TRUE
+           ELSE IF mode \in {"prog", "prog2", "chain"} THEN TRUE
            ELSE M!SortByIndices([i \in 1..Len(perm) |-> i], perm) = perm
 =============================================================================
